@@ -1091,3 +1091,8 @@ MUTANTS += [
  dict(id='F64-benign-early-count-continue-self', props=['C14', 'C16'], expect='SILENT',
       edits=[(SRV, '\t\t\tif p.Role == "receiver" && p.PeerID != peerID {\n\t\t\t\treceivers++\n\t\t\t}\n', '\t\t\tif p.PeerID == peerID {\n\t\t\t\tcontinue\n\t\t\t}\n\t\t\tif p.Role == "receiver" {\n\t\t\t\treceivers++\n\t\t\t}\n')]),
 ]
+
+MUTANTS += [
+ dict(id='F65-undo-read-error-collected', props=['C02'], expect='R-LEGACY-READ-ERR/legacy-read-err/',
+      edits=[(MP, '\tselect {\n\tcase err := <-readErrChan:\n\t\treturn 0, err\n\tdefault:\n\t}\n\n\t<-flushDone', '\t<-flushDone')]),
+]
